@@ -6,15 +6,15 @@ export GOFLAGS=-mod=mod GOPROXY=off GOSUMDB=off GOTOOLCHAIN=local
 out=$1; wt=$2
 cd $wt || exit 9
 demo=$(ls $out/*_test.go | head -1)
-demoname=$(grep -o 'func Test[A-Za-z0-9_]*' $demo | head -1 | sed 's/func //')
+demoname=$(grep -o 'func Test[A-Za-z0-9_]*' $demo | sed 's/func //' | paste -sd'|')
 pkgdir=$(dirname $(git -C $wt status --porcelain | grep '_test.go' | grep -v '^ D' | awk '{print $2}' | head -1))
 echo "demo=$demo test=$demoname pkgdir=$pkgdir"
 # state: patch applied + demo present
-r1=$(cd $wt/$pkgdir && go test -vet=off -count=1 -timeout 120s -run "^${demoname}\$" . 2>&1 | tail -1)
+r1=$(cd $wt/$pkgdir && go test -vet=off -count=1 -timeout 120s -run "^(${demoname})\$" . 2>&1 | grep -E "^(ok|FAIL|---)" | tail -1)
 echo "demo with patch: $r1"
 git -C $wt apply -R $out/patch.diff || { echo "cannot revert patch"; exit 8; }
-r2=$(cd $wt/$pkgdir && go test -vet=off -count=1 -timeout 120s -run "^${demoname}\$" . 2>&1 | tail -1)
+r2=$(cd $wt/$pkgdir && go test -vet=off -count=1 -timeout 120s -run "^(${demoname})\$" . 2>&1 | tail -1)
 echo "demo without patch: $r2"
 git -C $wt apply $out/patch.diff
-r3=$(cd $wt && go test -vet=off -count=1 -timeout 10m -skip "^${demoname}\$" . ./pkg/... 2>&1 | grep -v "^ok" | tail -3)
+r3=$(cd $wt && go test -vet=off -count=1 -timeout 10m -skip "^(${demoname})\$" . ./pkg/... 2>&1 | grep -v "^ok" | tail -3)
 echo "suite with patch (non-ok lines): [$r3]"
